@@ -2,6 +2,7 @@ package scen
 
 import (
 	"context"
+	"encoding/json"
 	"fmt"
 	"math/big"
 	"sort"
@@ -32,6 +33,30 @@ func init() {
 		Doc:  "the c10 burst world judged by the ledger only: at quiescence after concurrent keep-alives (with real badger conflicts) the credit sum is what it was before the burst",
 		Real: worldReal, Stub: worldStub,
 		Run: func(s *kernel.Sim) { runC10(s, "C01") },
+	})
+	Register(&Scenario{
+		Name: "c01_first_touch_conc", Property: "C01", MaxSteps: 30000, Quick: 300, Thorough: 20000,
+		Doc:  "the burst world on the persistent driver with nodes that have no balance record yet: their first credit or debit ever races, inside the badger transaction, with the node's own keep-alive or re-registration (a write to its node record, i.e. a real optimistic conflict and a retried transaction); the credit sum at quiescence is what it was",
+		Real: worldReal, Stub: worldStub,
+		Run: func(s *kernel.Sim) { runC10(s, "C01", "firsttouch") },
+	})
+	Register(&Scenario{
+		Name: "c10_same_client", Property: "C10", MaxSteps: 30000, Quick: 400, Thorough: 20000,
+		Doc:  "two to four keep-alives of one client (distinct fresh nonces, separate connections) in flight at once: whatever subset is acknowledged, every balance moved by what some one-at-a-time order of them moves it (no stretch of time billed twice)",
+		Real: worldReal, Stub: worldStub,
+		Run: func(s *kernel.Sim) { runC10(s, "C10", "sameclient") },
+	})
+	Register(&Scenario{
+		Name: "c02_same_client_conc", Property: "C02", MaxSteps: 30000, Quick: 300, Thorough: 20000,
+		Doc:  "the same-client burst judged by billing only",
+		Real: worldReal, Stub: worldStub,
+		Run: func(s *kernel.Sim) { runC10(s, "C02", "sameclient") },
+	})
+	Register(&Scenario{
+		Name: "c10_first_touch", Property: "C10", MaxSteps: 30000, Quick: 300, Thorough: 20000,
+		Doc:  "the first-touch burst judged by all C10 oracles (serial-order balances, snapshots, nonces)",
+		Real: worldReal, Stub: worldStub,
+		Run: func(s *kernel.Sim) { runC10(s, "C10", "firsttouch") },
 	})
 	Register(&Scenario{
 		Name: "c05_nonce_rpc_race", Property: "C05", MaxSteps: 30000, Quick: 250, Thorough: 20000,
@@ -165,14 +190,27 @@ type burstTask struct {
 	target *Actor // addnode: the node being linked
 }
 
-func runC10(s *kernel.Sim, prop string) {
+// runC10 is the burst world.  focus "firsttouch": persistent driver with in-transaction yields, nodes that have no balance
+// record yet, and hosts that write their own node record (keep-alive, re-registration) while clients' keep-alives credit them.
+func runC10(s *kernel.Sim, prop string, focus ...string) {
+	firstTouch := len(focus) > 0 && focus[0] == "firsttouch"
+	sameClient := len(focus) > 0 && focus[0] == "sameclient" // every task is a keep-alive of one client
 	cfg := WorldCfg{Driver: []string{"badger", "memory"}[s.Choose("driver", 2)]}
+	if firstTouch {
+		cfg.Driver = "badger"
+	}
 	cfg.Hosts = 1 + s.Choose("hosts", 3)
 	cfg.Clients = 1 + s.Choose("clients", 3)
+	if sameClient {
+		cfg.Clients = 1
+	}
 	cfg.Wallets = 2
 	cfg.Interval = time.Second
 	cfg.Price = []*big.Int{big.NewInt(1), big.NewInt(1000), new(big.Int).Set(big70)}[s.Choose("price", 3)]
-	cfg.TxnYields = s.Choose("txnyields", 3) != 0
+	cfg.TxnYields = s.Choose("txnyields", 3) != 0 || firstTouch
+	if firstTouch {
+		cfg.Price = big.NewInt(int64(1 + s.Choose("smallprice", 1000)))
+	}
 	cfg.StoreYields = 3
 	cfg.PostWrite = s.Choose("postwrite", 2) * 2
 	cfg.PendingLimit = true
@@ -223,7 +261,12 @@ func runC10(s *kernel.Sim, prop string) {
 			d.AddNode(w.Actors[0], w.Wallets[0], w.Actors[0])
 		}
 		// starting credit so that multi-word arithmetic and aliasing have something to bite on
+		// (in some runs a few nodes stay without any balance record: their first credit or debit ever happens in the burst)
+		fresh := d.choose("freshbalances", 2) == 1 || firstTouch
 		for _, a := range w.Actors {
+			if fresh && (d.choose("nobalance", 2) == 0 || firstTouch) {
+				continue
+			}
 			w.Inner.AddNodeBalance(store.NodeID(a.ID), new(big.Int).Add(big70, big.NewInt(int64(1000+d.choose("init", 1000)))))
 		}
 		d.Advance(adv)
@@ -260,6 +303,12 @@ func runC10(s *kernel.Sim, prop string) {
 			trialNodes = append(trialNodes, a)
 		}
 	}
+	for _, a := range w.Actors {
+		if initial[holder(a.ID)].Sign() == 0 {
+			s.Probe("c10.node_without_balance_record_enters_burst")
+			break
+		}
+	}
 	ledBefore, _, _ := w.LedgerSum()
 	lastSeen := map[string]time.Time{}
 	for _, a := range clients {
@@ -271,6 +320,7 @@ func runC10(s *kernel.Sim, prop string) {
 	if s.Choose("sched", 3) != 0 {
 		s.Sched = kernel.SchedPriority
 	}
+	s.StallPermille = []int{0, 25, 70}[s.Choose("stallrate", 3)]
 	s.SetYield("store", cfg.StoreYields)
 	s.SetYield("storeret", 1)
 	if cfg.TxnYields && cfg.Driver == "badger" {
@@ -280,18 +330,39 @@ func runC10(s *kernel.Sim, prop string) {
 	s.SetYield("op", 3)
 	burstStart := time.Now()
 	nTasks := 2 + s.Choose("ntasks", 7)
+	if sameClient {
+		nTasks = 2 + s.Choose("nsame", 3)
+	}
 	var mu sync.Mutex
 	var tasks []*burstTask
 	for t := 0; t < nTasks; t++ {
 		bt := &burstTask{name: fmt.Sprintf("burst%d", t), dupOf: -1, nonce: burstStart.UnixNano() + int64(1+t)}
 		bt.a = clients[s.Choose("client", len(clients))]
-		switch k := s.Choose("kind", 10); {
+		k := s.Choose("kind", 11)
+		if firstTouch && k > 5 {
+			k = 10
+		}
+		if sameClient {
+			k = 0
+		}
+		switch {
 		case k <= 5:
 			bt.kind = "update"
 		case k <= 7:
 			bt.kind = "peer"
 		case k == 8:
 			bt.kind = "addnode"
+		case k == 10:
+			// a host's own keep-alive or re-registration: writes the host's node record while clients' keep-alives credit it
+			bt.kind = []string{"hostupdate", "hostconnect"}[s.Choose("hostkind", 2)]
+			var hosts []*Actor
+			for _, h := range w.Actors {
+				if h.IsHost {
+					hosts = append(hosts, h)
+				}
+			}
+			bt.a = hosts[s.Choose("host", len(hosts))]
+			s.Probe("c10.host_" + bt.kind[4:] + "_in_burst")
 		default:
 			bt.kind = "update"
 			if t > 0 {
@@ -325,6 +396,12 @@ func runC10(s *kernel.Sim, prop string) {
 				if err == nil && resp.Balance != nil {
 					reply = resp.Balance.Credit.String()
 				}
+			case "hostupdate":
+				var resp pool.UpdateResponse
+				err = conn.Agent.Call(ctx, &resp, "vipnode_update", bt.a.Signed("vipnode_update", bt.nonce, pool.UpdateRequest{PeerInfo: nil, BlockNumber: 3})...)
+			case "hostconnect":
+				var resp pool.ConnectResponse
+				err = conn.Agent.Call(ctx, &resp, "vipnode_connect", bt.a.Signed("vipnode_connect", bt.nonce, bt.a.ConnectReq("", ""))...)
 			case "peer":
 				var resp pool.PeerResponse
 				err = conn.Agent.Call(ctx, &resp, "vipnode_peer", bt.a.Signed("vipnode_peer", bt.nonce, pool.PeerRequest{Num: 1 + len(bt.name)%3})...)
@@ -577,6 +654,7 @@ func runC07Race(s *kernel.Sim) {
 	if s.Choose("sched", 3) != 0 {
 		s.Sched = kernel.SchedPriority
 	}
+	s.StallPermille = []int{0, 25, 70}[s.Choose("stallrate", 3)]
 	s.SetYield("store", cfg.StoreYields)
 	s.SetYield("storeret", 1)
 	s.SetYield("settle", 3)
@@ -687,6 +765,7 @@ func runC09Race(s *kernel.Sim) {
 	if s.Choose("sched", 3) != 0 {
 		s.Sched = kernel.SchedPriority
 	}
+	s.StallPermille = []int{0, 25, 70}[s.Choose("stallrate", 3)]
 	s.SetYield("postwrite", cfg.PostWrite)
 	s.SetYield("op", 3)
 	s.SetYield("hostsvc", 2)
@@ -805,4 +884,193 @@ func runC09Race(s *kernel.Sim) {
 			}
 		}
 	}
+}
+
+// ------------------------------------------------------------------ C06 refused requests racing the owner's request
+
+func init() {
+	Register(&Scenario{
+		Name: "c06_refused_conc", Property: "C06", MaxSteps: 30000, Quick: 300, Thorough: 20000,
+		Doc:  "the owner's own valid request (pool_withdraw of a wallet, vipnode_update of a client) arrives while one to three refused requests naming the same identity are still being refused (replayed stale nonce with a valid signature, flipped signature byte, signature by another key), interleaved at every store-operation boundary: the refused requests leave no trace, so the owner's request is carried out exactly as if they had never been sent",
+		Real: worldReal, Stub: worldStub,
+		Run: runC06Conc,
+	})
+}
+
+func runC06Conc(s *kernel.Sim) {
+	cfg := WorldCfg{Driver: []string{"memory", "badger"}[s.Choose("driver", 2)], Hosts: 1, Clients: 1, Wallets: 1}
+	cfg.Interval = time.Second
+	cfg.Price = big.NewInt(10)
+	cfg.StoreYields = 3
+	cfg.TxnYields = s.Choose("txnyields", 2) == 1
+	if s.Choose("feecfg", 2) == 1 {
+		cfg.Fee, cfg.WithdrawMin = big.NewInt(25), big.NewInt(50)
+	}
+	w := NewWorld(s, cfg)
+	s.IdleSteps = []time.Duration{time.Millisecond, 50 * time.Millisecond, time.Second}
+	for _, c := range []string{"store", "storeret", "txn"} {
+		s.SetYield(c, 0)
+	}
+	host, client, wl := w.Actors[0], w.Actors[1], w.Wallets[0]
+	acc := store.Account(wl.Addr)
+	d := NewDirector(w)
+	ready := false
+	// a nonce below everything the pool accepts from now on: a valid signature over it is a replayed, stale request
+	staleWallet := time.Now().UnixNano()
+	staleClient := staleWallet
+	s.Go("director", func() {
+		d.Connect(host, "", "", false)
+		d.Connect(client, "", "", false)
+		d.Update(client, []string{host.ID}, 1)
+		d.AddNode(host, wl, host)
+		w.Inner.AddAccountBalance(acc, big.NewInt(int64(100+d.choose("credit", 1000))))
+		d.Advance(time.Duration(2+d.choose("adv", 50)) * time.Second)
+		ready = true
+	})
+	if r := s.Drive(kernel.DriveOpts{IdleCap: time.Hour}); r != kernel.Done || !ready {
+		if r != kernel.Stopped {
+			s.Violate("liveness", "setup never finishes", "setup ended %s", r)
+		}
+		return
+	}
+	flavour := []string{"withdraw", "update"}[s.Choose("flavour", 2)]
+	b0, _ := w.Dep.GetAccountBalanceDirect(acc)
+	total0 := new(big.Int).Add(&b0.Credit, &b0.Deposit)
+	cn, _ := w.Inner.GetNode(store.NodeID(client.ID))
+	clientBefore, _ := w.Inner.GetNodeBalance(store.NodeID(client.ID))
+	if s.Choose("sched", 3) != 0 {
+		s.Sched = kernel.SchedPriority
+	}
+	s.StallPermille = []int{0, 25, 70}[s.Choose("stallrate", 3)]
+	s.SetYield("store", cfg.StoreYields)
+	s.SetYield("storeret", 1)
+	s.SetYield("settle", 2)
+	if cfg.TxnYields && cfg.Driver == "badger" {
+		s.SetYield("txn", 2)
+	}
+	s.SetYield("op", 3)
+	start := time.Now()
+	fresh := start.UnixNano() + 1000
+	var mu sync.Mutex
+	var ownerErr error
+	ownerDone := false
+	var refusedErrs []string
+	// the owner's request
+	{
+		conn := w.Dial(host)
+		if flavour == "update" {
+			conn = w.Dial(client)
+		}
+		s.Go("owner", func() {
+			s.Gate("owner")
+			ctx, cancel := context.WithCancel(s.Ctx)
+			defer cancel()
+			var err error
+			if flavour == "withdraw" {
+				err = conn.Agent.Call(ctx, nil, "pool_withdraw", wl.WSigned("pool_withdraw", fresh)...)
+			} else {
+				var resp pool.UpdateResponse
+				err = conn.Agent.Call(ctx, &resp, "vipnode_update", client.Signed("vipnode_update", fresh, pool.UpdateRequest{PeerInfo: PeerInfos([]string{host.ID}), BlockNumber: 3})...)
+			}
+			mu.Lock()
+			ownerErr, ownerDone = err, true
+			mu.Unlock()
+			s.TaskLog("owner", "%s -> %v", flavour, err)
+		})
+	}
+	// the refused ones, sent by somebody else over other connections
+	nRef := 1 + s.Choose("nrefused", 3)
+	for t := 0; t < nRef; t++ {
+		name := fmt.Sprintf("refused%d", t)
+		conn := w.Dial(client)
+		kind := s.Choose("refusal", 3)
+		var method string
+		var args []interface{}
+		if flavour == "withdraw" {
+			method = "pool_withdraw"
+			switch kind {
+			case 0: // valid signature, nonce already used by this wallet
+				args = wl.WSigned(method, staleWallet)
+			case 1:
+				args = wl.WSigned(method, fresh+int64(1+t))
+				args[0] = flipSigByte(args[0].(string), 7+t, true)
+			default:
+				args = (&Wallet{Key: client.Key, Addr: wl.Addr}).WSigned(method, fresh+int64(1+t))
+			}
+		} else {
+			method = "vipnode_update"
+			params := pool.UpdateRequest{PeerInfo: PeerInfos([]string{host.ID}), BlockNumber: 4}
+			switch kind {
+			case 0:
+				args = client.Signed(method, staleClient, params)
+			case 1:
+				args = client.Signed(method, fresh+int64(1+t), params)
+				args[0] = flipSigByte(args[0].(string), 7+t, false)
+			default:
+				args = (&Actor{Key: host.Key, ID: client.ID}).Signed(method, fresh+int64(1+t), params)
+			}
+		}
+		what := []string{"stale nonce", "flipped signature byte", "signed by another key"}[kind]
+		s.Fault("refused_request_racing_owner")
+		s.Go(name, func() {
+			s.Gate(name)
+			ctx, cancel := context.WithCancel(s.Ctx)
+			defer cancel()
+			var res json.RawMessage
+			err := conn.Agent.Call(ctx, &res, method, args...)
+			mu.Lock()
+			if err == nil {
+				refusedErrs = append(refusedErrs, name+" ("+what+"): accepted")
+			} else if !isVerifyFailed(err) {
+				refusedErrs = append(refusedErrs, name+" ("+what+"): "+err.Error())
+			}
+			mu.Unlock()
+			s.TaskLog(name, "%s (%s) -> %v", method, what, err)
+		})
+	}
+	res := s.Drive(kernel.DriveOpts{IdleCap: 30 * time.Second})
+	if res != kernel.Done {
+		if res != kernel.Stopped {
+			s.Violate("liveness", "concurrent requests never all return", "ended %s", res)
+		}
+		return
+	}
+	s.Drive(kernel.DriveOpts{FIFO: true, Quiet: true, IdleCap: time.Millisecond, MaxSteps: 2000})
+	if !ownerDone {
+		return
+	}
+	for _, e := range refusedErrs {
+		s.Violate("no_trace", "a request that must be refused by verification was not", "%s", e)
+		return
+	}
+	if ownerErr != nil {
+		s.Violate("no_trace", "a refused "+flavour+" in flight made the owner's own request fail", "owner's %s with a fresh nonce returned %q while %d refused requests naming the same identity were being refused", flavour, ownerErr, nRef)
+		return
+	}
+	if flavour == "withdraw" {
+		w.Set.mu.Lock()
+		paid := append([]Payment(nil), w.Set.Paid...)
+		w.Set.mu.Unlock()
+		want := new(big.Int).Set(total0)
+		if cfg.Fee != nil {
+			want.Sub(want, cfg.Fee)
+		}
+		if len(paid) != 1 || paid[0].Amount.Cmp(want) != 0 {
+			s.Violate("no_trace", "refused withdrawals changed what the owner's withdrawal paid", "balance %s fee %v: settlements %v", total0, cfg.Fee, paid)
+		}
+		bf, _ := w.Dep.GetAccountBalanceDirect(acc)
+		if left := new(big.Int).Add(&bf.Credit, &bf.Deposit); left.Sign() != 0 {
+			s.Violate("no_trace", "wallet not empty after the owner's withdrawal", "deposit %s + credit %s", bf.Deposit.String(), bf.Credit.String())
+		}
+	} else {
+		// exactly one keep-alive was billed: the time since the client's previous one, up to the end of the burst
+		after, _ := w.Inner.GetNodeBalance(store.NodeID(client.ID))
+		moved := new(big.Int).Sub(&clientBefore.Credit, &after.Credit)
+		lo := creditFor(start.Sub(cn.LastSeen), cfg.Price, cfg.Interval)
+		hi := creditFor(time.Since(cn.LastSeen), cfg.Price, cfg.Interval)
+		if moved.Cmp(lo) < 0 || moved.Cmp(hi) > 0 {
+			s.Violate("no_trace", "refused keep-alives changed what the owner's keep-alive was charged", "client debited %s, one keep-alive bills %s..%s", moved, lo, hi)
+		}
+	}
+	s.ProbeN("c06.refused_racing_owner", nRef)
 }
